@@ -12,14 +12,14 @@ import (
 // VerifC09HttpSink: the sending side of the HTTP full-sync protocol. A fullsync
 // job (log error handler, batch size 1 or 2) copies a dataset of three
 // entities to an HttpDatasetSink whose remote is scripted: each of the first
-// requests is answered 200 or refused (429), drawn independently. The
+// requests is answered 200 or refused (429, or 503 which the HTTP client retries by itself), drawn independently. The
 // receiving hub starts a NEW sync — forgetting what it has seen — whenever a
 // request carries the full-sync-start header (datasethandler.processEntities,
 // decided under VerifC09Handler). So within one sync id the start header must
 // never travel again once the remote has accepted a request of that sync:
 // otherwise the completion deletes entities the sync did contain. Also every
-// request of a run carries the one sync id of that run, and the end header
-// travels at most once and last.
+// request of a run carries the one sync id of that run, and nothing is sent
+// once the remote has accepted the request that ends the sync.
 func VerifC09HttpSink(h *verifh.H) {
 	hub := server.VerifNewHub(h)
 	_, _ = hub.Dsm.CreateDataset("src", nil)
@@ -30,8 +30,12 @@ func VerifC09HttpSink(h *verifh.H) {
 	var script []string
 	var refused []bool
 	for k := 0; k < 4; k++ {
-		if h.Choice("refuse", 2) == 1 {
+		if ans := h.Choice("refuse", 3); ans == 1 {
 			script = append(script, "!429 slow down")
+			refused = append(refused, true)
+		} else if ans == 2 {
+			// (a 5xx answer is retried by the HTTP client itself: the same request again)
+			script = append(script, "!503 restarting")
 			refused = append(refused, true)
 		} else {
 			script = append(script, "[]")
@@ -78,7 +82,7 @@ func VerifC09HttpSink(h *verifh.H) {
 			id = sid
 		}
 		h.Assert(sid == id, "every request of one run carries the same sync id")
-		h.Assert(!ended, "nothing is sent after the request that ends the sync")
+		h.Assert(!ended, "nothing is sent after the remote accepted the request that ends the sync")
 		if hdr(e, "Universal-Data-Api-Full-Sync-Start") == "true" {
 			h.Assert(!accepted, "the full-sync-start header does not travel again once the remote has accepted a request of this sync (the receiver would forget what it has seen) :: request "+itoa(k)+" of "+itoa(len(log)))
 		}
@@ -86,7 +90,7 @@ func VerifC09HttpSink(h *verifh.H) {
 		if ok {
 			accepted = true
 		}
-		if hdr(e, "Universal-Data-Api-Full-Sync-End") == "true" {
+		if ok && hdr(e, "Universal-Data-Api-Full-Sync-End") == "true" {
 			ended = true
 		}
 	}
